@@ -571,7 +571,13 @@ class LazyCopyAttrs(dict):
         if k in self.local_deleted:
             return False
         src = self.src
-        if k not in src.attrs:
+        if isinstance(src.attrs, LazyCopyAttrs) and not dict.__contains__(src.attrs, k):
+            # copy of a lazy copy that has not materialised k itself (so k was never written in src): src's value of k
+            # is the one src pulls from ITS source; pull it there first, then copy it
+            if not src.attrs._pull(k):
+                return False
+            v = dict.__getitem__(src.attrs, k)
+        elif k not in src.attrs:
             if not src.pre:
                 return False
             # materialise in the source: the value it had at copy time is its initial value, provided the
